@@ -661,7 +661,7 @@ fn main() {
     }
     exhaustive(&ctx, 4, if ctx.quick() { vec![r(0), r(1), r(-1), r(2)] } else { z5.clone() });
     exhaustive(&ctx, 5, vec![r(0), r(1), r(-1)]);
-    toeplitz(&ctx, 6, ctx.pick(8, 12));
+    toeplitz(&ctx, 6, 12);
     ctx.lattice(
         "arithmetic operators, constructors, index_mut for n=1..8",
         8,
